@@ -9,7 +9,7 @@ One request per line, one reply line.  Strings are `Proto.encStr` tokens (`'…`
         → OK L<n>:<mappings> | <source tokens> | <name tokens>
           mappings: lines joined by `;`, segments by `,`, fields by `.`
         → EXC                    the model raised (IndexError in normalize)
-  wf <frag>*                     → OK <0|1>   Model `wfStream` (NoSplitCRLF + both-or-none)
+  wf <frag>*                     → OK <0|1> <0|1>   Model `wfStream` (both-or-none + NoSplitCRLF), `noSplitCRLF` alone
   genpos <'text>*                → OK l.c l.c …   Spec.genPos of every text (zero-based)
   linecount <'text>              → OK <n>         Spec.lineCount
   rel <'mappings-string>         → OK L<n>:<mappings>  (Spec base64-VLQ reader)  | ERR undecodable
@@ -17,6 +17,9 @@ One request per line, one reply line.  Strings are `Proto.encStr` tokens (`'…`
                                    (absolute values, Spec.decodeString)          | ERR undecodable
   query <'mappings-string> (<line> <col>)*
         → OK <exact>/<interp> …  exact = entry or `-`, interp = `s.l.c` or `-`
+  names <N|'name>*               → OK <delta|N>* | <key tokens>   `Names.update` applied in sequence
+  cell <int> <op>*               ops `s<int>` (`bk.x = v`), `r<int>` (`bk._x = v`) on a cell first set to <int>
+                                 → OK <rel>.<abs> …  (`bk.x`, `bk._x` after each op)
   classes                        → OK brk:<hex,…> nl:<hex,…> ws:<hex,…>  (all code points of pyClasses)
 Anything else: ERR <reason>.
 -/
@@ -79,6 +82,28 @@ def queries (m : List (List SourceMapV3.Entry)) : List String → Option (List S
     pure ((ex ++ "/" ++ ip) :: r)
   | _ => none
 
+def namesRun (n : Names (List Char)) : List String → Option (List String × Names (List Char))
+  | [] => some ([], n)
+  | t :: rest =>
+    if t == "N" then (namesRun n rest).map fun (r, n') => ("N" :: r, n')
+    else match decStr t with
+      | none => none
+      | some x =>
+        let u := n.update (some x.toList)
+        (namesRun u.1 rest).map fun (r, n') => ((match u.2 with | some d => toString d | none => "N") :: r, n')
+
+def cellRun (c : Cell) : List String → Option (List String)
+  | [] => some []
+  | t :: rest =>
+    match t.toList with
+    | 's' :: ds => match (String.ofList ds).toInt? with
+      | some v => let c' := c.set v; (cellRun c' rest).map (fun r => (toString c'.rel ++ "." ++ toString c'.abs) :: r)
+      | none => none
+    | 'r' :: ds => match (String.ofList ds).toInt? with
+      | some v => let c' := Cell.reset v; (cellRun c' rest).map (fun r => (toString c'.rel ++ "." ++ toString c'.abs) :: r)
+      | none => none
+    | _ => none
+
 def hexList (p : Char → Bool) : String :=
   let cps := (List.range 0x110000).filter fun n =>
     (n < 0xD800 || n > 0xDFFF) && p (Char.ofNat n)
@@ -95,7 +120,8 @@ def handle (line : String) : String :=
     | _, _ => "ERR bad-write-request"
   | "wf" :: rest =>
     match parseFrags rest with
-    | some frags => "OK " ++ (if wfStream frags then "1" else "0")
+    | some frags => "OK " ++ (if wfStream frags then "1" else "0") ++ " " ++
+        (if noSplitCRLF false (frags.map (·.text)) then "1" else "0")
     | none => "ERR bad-frags"
   | "genpos" :: rest =>
     match (rest.map decStr).foldr (fun o acc => match o, acc with
@@ -129,6 +155,16 @@ def handle (line : String) : String :=
         | none => "ERR bad-query"
       | none => "ERR undecodable"
     | none => "ERR bad-string"
+  | "names" :: rest =>
+    match namesRun Names.empty rest with
+    | some (r, n) => "OK " ++ " ".intercalate r ++ " | " ++ strToks n.keys
+    | none => "ERR bad-names"
+  | "cell" :: i :: rest =>
+    match decInt i with
+    | some v => match cellRun (Cell.reset v) rest with
+      | some r => "OK " ++ " ".intercalate r
+      | none => "ERR bad-cell-op"
+    | none => "ERR bad-cell-init"
   | ["classes"] =>
     "OK brk:" ++ hexList pyClasses.brk ++ " nl:" ++ hexList pyClasses.nl ++ " ws:" ++ hexList pyClasses.ws
   | _ => "ERR unknown-request"
